@@ -83,8 +83,22 @@ impl CleanMarkerStore {
                 format!("clean marker serialize failed: {:?}", e),
             )
         })?;
+        #[cfg(walrus_verif)]
+        if crate::wal::verif_hooks::io_event(crate::wal::verif_hooks::IO_MARKER_TMP) {
+            return Err(std::io::Error::new(
+                std::io::ErrorKind::Other,
+                "injected marker write failure",
+            ));
+        }
         fs::write(&tmp_path, &bytes)?;
         fs::File::open(&tmp_path)?.sync_all()?;
+        #[cfg(walrus_verif)]
+        if crate::wal::verif_hooks::io_event(crate::wal::verif_hooks::IO_MARKER_RENAME) {
+            return Err(std::io::Error::new(
+                std::io::ErrorKind::Other,
+                "injected marker rename failure",
+            ));
+        }
         fs::rename(&tmp_path, path)?;
         Ok(())
     }
